@@ -1,5 +1,6 @@
 pub mod alloc;
 pub mod exec;
+pub mod graph;
 pub mod iso;
 pub mod par;
 pub mod report;
